@@ -2,6 +2,7 @@ import OdakProofs.RealInst
 import OdakProofs.Lemmas.Kernels
 import OdakModel.Polar
 import OdakProofs.Lemmas.GenPolar
+import OdakProofs.Lemmas.GenQuantisers
 import Mathlib.Analysis.SpecialFunctions.Complex.Arg
 import Mathlib.Algebra.Order.Floor.Ring
 
@@ -152,5 +153,39 @@ theorem C09_gen_add_phase_keeps_amplitude (u : Cx ℝ) (φ : ℝ) : calcAmplitud
 /-- `wavenumber λ = 2π/λ` in both APIs, as the source is now -/
 theorem C09_gen_wavenumber (lam : ℝ) : wavenumberT lam = 2 * Real.pi / lam ∧ wavenumberN lam = 2 * Real.pi / lam := by
   simp only [gen_wavenumberT_eq, gen_wavenumberN_eq, wavenumber, num_two, num_pi, and_self]
+
+end Odak
+
+/-! ## The SLM quantisers REGENERATED from the Python source (`OdakModel/Generated/Quantisers.lean`: NumPy
+  `produce_phase_only_slm_pattern`, `adjust_phase_only_slm_range`, torch `quantize`; tied to the hand model by
+  `OdakProofs/Lemmas/GenQuantisers.lean`). -/
+namespace Odak
+open Gen
+
+/-- generated `produce_phase_only_slm_pattern`: for every field sample, every positive SLM range and every bit depth the integer
+    level lies in `[0, 2^bits)` and is an integer; without illumination the pattern has unit amplitude, with an illumination
+    amplitude `A` it has amplitude `|A|`; the level is the same in both cases -/
+theorem C09_gen_slm_pattern (u : Cx ℝ) (range : ℝ) (hr : 0 < range) (bits : Nat) (A : ℝ) :
+    (∃ k : ℕ, (slmPatternN u range bits).2 = (k : ℝ) ∧ k < 2 ^ bits) ∧
+    calcAmplitudeN (slmPatternN u range bits).1 = 1 ∧
+    calcAmplitudeN (slmPatternIllumN u range bits A).1 = |A| ∧
+    (slmPatternIllumN u range bits A).2 = (slmPatternN u range bits).2 := by
+  rw [slmPatternN_eq, slmPatternIllumN_eq]
+  simp only [gen_calcAmplitudeN_eq]
+  obtain ⟨hk, h1⟩ := C09_slm_pattern u range hr bits
+  refine ⟨hk, h1, ?_, trivial⟩
+  simp only [calcAmplitude, slmPattern, abs_polar]
+
+/-- generated torch `quantize` on an already-wrapped phase `x ∈ [0, 2π)` with limits `[0, 2π]`: integer level in `[0, 2^bits)` -/
+theorem C09_gen_quantize_level (x : ℝ) (hx0 : 0 ≤ x) (hx1 : x < 2 * Real.pi) (bits : Nat) :
+    ∃ k : ℕ, quantizeT x bits 0 (2 * Real.pi) = (k : ℝ) ∧ k < 2 ^ bits := by
+  rw [quantizeT_eq]; exact C09_quantize_level x hx0 hx1 bits
+
+/-- generated `adjust_phase_only_slm_range`: the range scales with `native_wavelength / working_wavelength`; at the native
+    wavelength it is the native range, and positive inputs give a positive range (so `C09_gen_slm_pattern` applies to it) -/
+theorem C09_gen_adjust_range (r w n : ℝ) (hr : 0 < r) (hw : 0 < w) (hn : 0 < n) :
+    adjustSlmRangeN r w n = r * (n / w) ∧ adjustSlmRangeN r w w = r ∧ 0 < adjustSlmRangeN r w n := by
+  simp only [adjustSlmRangeN_eq]
+  refine ⟨by field_simp, by field_simp, by positivity⟩
 
 end Odak
